@@ -19,13 +19,13 @@ func init() { register("C11", runC11) }
 
 // ---- harness-side message construction (independent of the library's encoder) ----
 
-type fieldSpec struct {
+type c11Field struct {
 	ID  uint16
 	Ent uint32
 	Len uint16
 }
 
-func msgHeader(total int, seq, obs uint32) []byte {
+func c11MsgHeader(total int, seq, obs uint32) []byte {
 	b := make([]byte, 16)
 	binary.BigEndian.PutUint16(b[0:], 10)
 	binary.BigEndian.PutUint16(b[2:], uint16(total))
@@ -35,7 +35,7 @@ func msgHeader(total int, seq, obs uint32) []byte {
 	return b
 }
 
-func tplMsg(obs, seq uint32, tid uint16, fs []fieldSpec) []byte {
+func c11TplMsg(obs, seq uint32, tid uint16, fs []c11Field) []byte {
 	rec := make([]byte, 4)
 	binary.BigEndian.PutUint16(rec[0:], tid)
 	binary.BigEndian.PutUint16(rec[2:], uint16(len(fs)))
@@ -55,16 +55,16 @@ func tplMsg(obs, seq uint32, tid uint16, fs []fieldSpec) []byte {
 		}
 	}
 	total := 16 + 4 + len(rec)
-	b := msgHeader(total, seq, obs)
+	b := c11MsgHeader(total, seq, obs)
 	sh := make([]byte, 4)
 	binary.BigEndian.PutUint16(sh[0:], 2)
 	binary.BigEndian.PutUint16(sh[2:], uint16(4+len(rec)))
 	return append(append(b, sh...), rec...)
 }
 
-func dataMsgSeq(obs, seq uint32, tid uint16, body []byte) []byte {
+func c11DataMsg(obs, seq uint32, tid uint16, body []byte) []byte {
 	total := 16 + 4 + len(body)
-	b := msgHeader(total, seq, obs)
+	b := c11MsgHeader(total, seq, obs)
 	sh := make([]byte, 4)
 	binary.BigEndian.PutUint16(sh[0:], tid)
 	binary.BigEndian.PutUint16(sh[2:], uint16(4+len(body)))
@@ -72,7 +72,7 @@ func dataMsgSeq(obs, seq uint32, tid uint16, body []byte) []byte {
 }
 
 // c11Template: sourceIPv4Address(8,4) destinationTransportPort(11,2) packetDeltaCount(2,8)
-var c11Template = []fieldSpec{{8, 0, 4}, {11, 0, 2}, {2, 0, 8}}
+var c11Template = []c11Field{{8, 0, 4}, {11, 0, 2}, {2, 0, 8}}
 
 func c11Record(r *Rng) []byte { return r.Bytes(14) }
 
@@ -226,8 +226,8 @@ func c11Run(stream []byte, cuts []int) string {
 
 // what a second connection sends after the first one is finished
 func c11Other() [][]byte {
-	return [][]byte{dataMsgSeq(1, 50, 256, make([]byte, 14)), tplMsg(777, 0, 300, c11Template),
-		dataMsgSeq(777, 1, 300, make([]byte, 14)), dataMsgSeq(1, 51, 258, []byte{10, 0, 0, 1, 2, 0xab, 0xcd})}
+	return [][]byte{c11DataMsg(1, 50, 256, make([]byte, 14)), c11TplMsg(777, 0, 300, c11Template),
+		c11DataMsg(777, 1, 300, make([]byte, 14)), c11DataMsg(1, 51, 258, []byte{10, 0, 0, 1, 2, 0xab, 0xcd})}
 }
 
 func joinInts(xs []int) string {
@@ -300,54 +300,54 @@ func runC11(env *Env) {
 		mk := func(kind string, seq uint32) []byte {
 			switch kind {
 			case "T":
-				return tplMsg(1, seq, 256, c11Template)
+				return c11TplMsg(1, seq, 256, c11Template)
 			case "T2":
-				return tplMsg(2, seq, 257, c11Template[:2])
+				return c11TplMsg(2, seq, 257, c11Template[:2])
 			case "TV": // sourceIPv4Address + applicationId (octetArray, variable length)
-				return tplMsg(1, seq, 258, []fieldSpec{{8, 0, 4}, {95, 0, 65535}})
+				return c11TplMsg(1, seq, 258, []c11Field{{8, 0, 4}, {95, 0, 65535}})
 			case "DV":
 				body := []byte{}
 				for i, n := 0, 1+r.Intn(3); i < n; i++ {
 					v := r.Bytes(1 + r.Intn(9))
 					body = append(append(append(body, r.Bytes(4)...), byte(len(v))), v...)
 				}
-				return dataMsgSeq(1, seq, 258, body)
+				return c11DataMsg(1, seq, 258, body)
 			case "XVtrunc": // the variable-length field announces more bytes than the set holds
 				body := append(append(r.Bytes(4), 9), r.Bytes(3)...)
-				return dataMsgSeq(1, seq, 258, body)
+				return c11DataMsg(1, seq, 258, body)
 			case "D":
 				n := 1 + r.Intn(3)
 				body := []byte{}
 				for i := 0; i < n; i++ {
 					body = append(body, c11Record(r)...)
 				}
-				return dataMsgSeq(1, seq, 256, body)
+				return c11DataMsg(1, seq, 256, body)
 			case "D2":
-				return dataMsgSeq(2, seq, 257, r.Bytes(6))
+				return c11DataMsg(2, seq, 257, r.Bytes(6))
 			case "Xver":
-				m := dataMsgSeq(1, seq, 256, c11Record(r))
+				m := c11DataMsg(1, seq, 256, c11Record(r))
 				m[1] = 9
 				return m
 			case "Xnotpl":
-				return dataMsgSeq(1, seq, 999, c11Record(r))
+				return c11DataMsg(1, seq, 999, c11Record(r))
 			case "Xshort":
-				m := dataMsgSeq(1, seq, 256, c11Record(r))[:10+r.Intn(9)]
+				m := c11DataMsg(1, seq, 256, c11Record(r))[:10+r.Intn(9)]
 				binary.BigEndian.PutUint16(m[2:], uint16(len(m)))
 				return m
 			case "Xbadtpl":
 				// unknown element id in strict mode
-				return tplMsg(1, seq, 258, []fieldSpec{{8, 0, 4}, {32000, 0, 4}})
+				return c11TplMsg(1, seq, 258, []c11Field{{8, 0, 4}, {32000, 0, 4}})
 			case "Llong":
 				// header length larger than the message: swallows bytes of the next one
-				m := dataMsgSeq(1, seq, 256, c11Record(r))
+				m := c11DataMsg(1, seq, 256, c11Record(r))
 				binary.BigEndian.PutUint16(m[2:], uint16(len(m)+3+r.Intn(20)))
 				return m
 			case "Lshort":
-				m := dataMsgSeq(1, seq, 256, c11Record(r))
+				m := c11DataMsg(1, seq, 256, c11Record(r))
 				binary.BigEndian.PutUint16(m[2:], uint16(len(m)-1-r.Intn(10)))
 				return m
 			case "Lzero":
-				m := dataMsgSeq(1, seq, 256, c11Record(r))
+				m := c11DataMsg(1, seq, 256, c11Record(r))
 				binary.BigEndian.PutUint16(m[2:], 0)
 				return m
 			}
